@@ -197,6 +197,20 @@ def variations(ctx, rr):
                                 'and the given prefix is no longer listed first' % ', '.join(ast.unparse(v)[:50] if v != 'param' else 'raw parameter' for v in vals),
                                 stmt='expand_prefix argument'))
     # ... and what it returns is that expansion, in the order lru_variations built it (the given prefix first)
+    # expansion is total: expand_prefix refuses nothing on the grounds of the prefix's content (only __encode may reject a non-bytes argument)
+    for rz in P.own(ep, ast.Raise):
+        cur_, conds_ = P.parent.get(id(rz)), []
+        while cur_ is not None and cur_ is not ep.node:
+            if isinstance(cur_, (ast.If, ast.While)):
+                conds_.append(cur_.test)
+            cur_ = P.parent.get(id(cur_))
+        names_ep = {a_.arg for a_ in ep.node.args.args if a_.arg != 'self'} | {t_.id for a_ in P.own(ep, ast.Assign) for t_ in a_.targets if isinstance(t_, ast.Name)}
+        dep_ = [t_ for t_ in conds_ for c_ in ast.walk(t_) if isinstance(c_, ast.Call) and not (isinstance(c_.func, ast.Name) and c_.func.id in ('isinstance', 'type'))
+                and any(isinstance(n_, ast.Name) and n_.id in names_ep for n_ in ast.walk(c_))]
+        rr.ob(ctx.where(ep, rz), 'expand_prefix does not refuse a prefix for its content', ok=not dep_)
+        if dep_:
+            rr.fail(ctx.finding('R-VARIATIONS', ep, rz, 'Traph.expand_prefix raises under `%s`, a test of the prefix bytes: well-formed prefixes failing it (an empty-valued stem, an unusual '
+                                'scheme) have no expansion any more, also when a creation rule proposes them during add_page' % ast.unparse(dep_[0])[:60], stmt='expand_prefix refusal'))
     from ..dataflow import single_defs as _sd_ep
     sd_ep = _sd_ep(P, ep)
     for r_ in P.own(ep, ast.Return):
@@ -378,6 +392,17 @@ def variations(ctx, rr):
                 rr.ob(ctx.where(hv, c), 'the scheme pattern carries the rest of the LRU over unchanged', ok=False)
                 rr.fail(ctx.finding('R-VARIATIONS', hv, c, 'https_variation rewrites the scheme with the pattern %r: `.` stops at a line break (no DOTALL), so an LRU with a newline byte in a '
                                     'later stem gets a truncated twin - more than the scheme stem changes and the class is not closed' % pat, stmt='scheme pattern dot'))
+    # the twin differs from the LRU in its scheme stem only: https_variation names no stem of another kind (a port, a host, a path)
+    import re as _re_st
+    doc_ = ast.get_docstring(hv.node, clean=False)
+    for k_ in ast.walk(hv.node):
+        if isinstance(k_, ast.Constant) and isinstance(k_.value, (bytes, str)) and k_.value != doc_:
+            v_k = k_.value if isinstance(k_.value, bytes) else k_.value.encode('latin-1', 'replace')
+            m_k = _re_st.fullmatch(rb'([a-z]):[^|]*\|', v_k)
+            if m_k and m_k.group(1) != b's':
+                rr.ob(ctx.where(hv, k_), 'https_variation touches the scheme stem only', ok=False)
+                rr.fail(ctx.finding('R-VARIATIONS', hv, k_, 'https_variation names the non-scheme stem %r: the scheme twin then differs from the LRU in more than its scheme (or exists only '
+                                    'for some ports/hosts), so the twin of the twin is not the LRU and the class depends on which variation is expanded' % k_.value, stmt='non-scheme stem'))
     rr.require(n_anchor, 2, 'scheme tests/rewrites in https_variation')
     # the scheme test names a whole stem (separator included) and the rewrite cuts exactly what the test matched
     from ..consts import const_env as _cenv
